@@ -323,5 +323,47 @@ func bindCase(i int, r *rand.Rand) *result {
 			res.count("p4_bindings_with_subjects", 1)
 		}
 	}
+	// the revision's Deployments shrink (a deactivated revision's runtime is removed; its service
+	// account may live on): after the next reconcile the stored binding names only service accounts
+	// of Deployments the revision still owns
+	if len(want) > 0 {
+		removed := 0
+		want2 := map[string]bool{}
+		for k, d := range ds {
+			if d.Owner != target {
+				continue
+			}
+			if removed == 0 || r.IntN(2) == 0 {
+				obj := &appsv1.Deployment{ObjectMeta: metav1.ObjectMeta{Namespace: d.NS, Name: d.Name}}
+				if err := admin.Delete(ctx, obj); err == nil {
+					removed++
+					ds[k].Owner = "(deleted)"
+					continue
+				}
+			}
+			want2[d.NS+"/"+d.SA] = true
+		}
+		perr := kit.Try(func() {
+			_, rerr = rec.Reconcile(ctx, reconcile.Request{NamespacedName: types.NamespacedName{Name: target}})
+		})
+		if perr == nil && rerr == nil {
+			for _, o := range w.ListObjs(sim.Key{Group: "rbac.authorization.k8s.io", Kind: "ClusterRoleBinding"}.GK()) {
+				if ctl := sim.ControllerOf(o); ctl == nil || sim.Str(ctl, "uid") != string(uids[target]) {
+					continue
+				}
+				crb := &rbacv1.ClusterRoleBinding{}
+				if err := runtime.DefaultUnstructuredConverter.FromUnstructured(o, crb); err != nil {
+					continue
+				}
+				res.count("p4_bindings_checked_after_shrink", 1)
+				for _, sj := range crb.Subjects {
+					if k := sj.Namespace + "/" + sj.Name; !want2[k] {
+						res.violate("binding-keeps-subject-of-removed-deployment", fmt.Sprintf("after %d Deployment(s) of revision %s were removed and the binding reconciled, %s still binds %s %s", removed, target, crb.Name, sj.Kind, k),
+							map[string]any{"target": target, "deployments": ds, "binding": crb.Name, "subjects": crb.Subjects, "still_owned": want2})
+					}
+				}
+			}
+		}
+	}
 	return res
 }
